@@ -192,6 +192,7 @@ PROPS['C06'] = dict(
 )
 PROPS['C07'] = dict(
     trace=TPB, mc=dict(quick=[mc('MC_PbFrame', 'MC_PbFrame_q.cfg', expect_min_distinct=30000)], thorough=[mc('MC_PbFrame', 'MC_PbFrame_t.cfg', expect_min_distinct=5000000, xmx='16g')]), need_kinds=['pb'], rlimit_as=24 << 30,
+    gen=dict(quick=[sim('Gen_PbFrame', 'Gen_PbFrame.cfg', 400, 14, 'pb')], thorough=[sim('Gen_PbFrame', 'Gen_PbFrame.cfg', 12000, 14, 'pb', shards=8)]),
     rule='fault enumeration through the specification\'s environment actions: for 10 (thorough 60) messages EVERY cut point 0 <= k < len(frame)+8 with EOF and with an injected read error (bodies ~4 KiB: every 97th plus 4 KiB boundaries), '
          'ReadHeader at the cut points, EVERY writer failure point on the header write and on the body write (partial acceptance), the truncated output read back; corrupt headers: header-size in {0,31,33,2^32,2^63,2^64-1,...} and '
          'body-size in {avail-1,avail,avail+1,2^24,2^31,2^40,2^47,2^62,2^63-1,2^63,2^64-1}; arbitrary bytes; random fault schedules over several frames; judged by Trace_PbFrame (outcome relation from io.ReadFull semantics); distinct = distinct histories',
